@@ -667,6 +667,23 @@ func checkCount(c CountCase) error {
 			return vk.Errf("OptimizeTable changed the assignment of %s from %q to %q", cd, l, f.l[cd])
 		}
 	}
+	// sequences of the same length and other content (the same letters turned by 1, 2, 4 positions: other reading
+	// frames), each freshly allocated, used and dropped, with a garbage collection in between
+	if len(s) >= 1024 {
+		return vk.Recycled(3, func(i int) string {
+			k := (1 << uint(i)) % len(s)
+			return string(append([]byte(s[k:]), s[:k]...))
+		}, func(i int, turned string) error {
+			ft, err := flatten(codon.ParseCodonJSON(b).OptimizeTable(turned))
+			if err != nil {
+				return vk.Errf("re-weighted table %d: %v", c.ID, err)
+			}
+			if want := countInFrame(turned); !sameW(ft.w, want) {
+				return vk.Errf("OptimizeTable on table %d with the same %d letters turned by %d (a fresh string, after the earlier ones were dropped and collected): %s", c.ID, len(turned), 1<<uint(i), diffW(ft.w, want))
+			}
+			return nil
+		})
+	}
 	return nil
 }
 
